@@ -1,6 +1,6 @@
 (* C09 — serving side: every reply the channel writes carries the id of a request it was sent. *)
 From OlaBase Require Import Bytes.
-From C09 Require Import Gen Model FrameProofs.
+From C09 Require Import Gen Model FrameProofs Generic.
 Local Open Scope N_scope.
 
 Lemma sends_app a b : sends (a ++ b) = sends a ++ sends b.
@@ -76,6 +76,7 @@ Proof.
   destruct (key_of q (requests r)) as [id|] eqn:Ek; [|inversion H; subst; cbn; rewrite app_nil_r; exact HK].
   apply key_of_In in Ek.
   destruct (send_msg _ _ _ _) as [[r1 e1] b1] eqn:E. inversion H; subst. cbn.
+  rewrite sends_app. cbn. rewrite app_nil_r.
   eapply send_msg_K in E; [| |exact HK].
   - destruct E as (R1 & _ & _ & K1). rewrite R1. eapply K_sub; [|exact K1]. apply remove_In.
   - intros _. destruct HK as [A _]. destruct res; cbn; eapply A; exact Ek.
@@ -105,6 +106,7 @@ Proof.
   - assert (Hans : answers ms (m_id m)).
     { exists m. split; [exact Hin|]. split; [reflexivity|]. unfold is_request. rewrite Et. reflexivity. }
     unfold handle_request in H.
+    destruct (method_kind (m_name m) =? 3); [inversion H; subst; cbn; rewrite app_nil_r; exact HK|].
     destruct (method_kind (m_name m) =? 0).
     + destruct (send_msg _ _ _ _) as [[r1 e1] b1] eqn:E. inversion H; subst.
       eapply send_msg_K in E; [| |exact HK]; [|intros _; exact Hans].
@@ -130,6 +132,7 @@ Proof.
       assert (Hans : answers ms (m_id m)).
       { exists m. split; [exact Hin|]. split; [reflexivity|]. unfold is_request. rewrite Es. apply orb_true_r. }
       unfold handle_stream_request in H.
+      destruct (method_kind (m_name m) =? 3); [inversion H; subst; cbn; rewrite app_nil_r; exact HK|].
       destruct (method_kind (m_name m) =? 0).
       * destruct (send_msg _ _ _ _) as [[r1 e1] b1] eqn:E. inversion H; subst.
         eapply send_msg_K in E; [| |exact HK]; [|intros _; exact Hans].
@@ -161,88 +164,45 @@ Qed.
 
 Definition KT (r : rpc) (tr : list event) : Prop := K (requests r) (sends tr) (dispatched tr).
 
-Lemma KT_frame r tr evs : KT r tr -> sends evs = [] -> KT r (tr ++ evs).
+Lemma KT_frame r tr evs : KT r tr -> Forall frame_only evs -> KT r (tr ++ evs).
 Proof.
-  unfold KT. intros H Hs. rewrite sends_app, Hs, app_nil_r. unfold dispatched. rewrite flat_map_app.
-  apply K_mono. exact H.
+  unfold KT. intros H Hf. rewrite sends_app, (frame_only_sends _ Hf), app_nil_r.
+  unfold dispatched. rewrite flat_map_app. apply K_mono. exact H.
 Qed.
 
-Lemma body_phase_K ok f r avail f' r' rest evs tr :
-  KT r tr -> body_phase ok f r avail = (f', r', rest, evs) -> KT r' (tr ++ evs).
+Lemma KT_dispatch cl ok r tr m r' evs :
+  KT r tr -> In (EvDispatch m) tr -> dispatch cl ok r m = (r', evs) -> KT r' (tr ++ evs).
 Proof.
-  intros HK H. unfold Model.body_phase in H.
-  destruct (recv _ avail) as [got rs].
-  destruct (_ =? expected f).
-  - destruct (decode _) as [m|].
-    + destruct (dispatch (closed f) ok r m) as [r1 evs1] eqn:Ed.
-      inversion H; subst f' r' rest evs; clear H.
-      pose proof Ed as Ed2. apply (dispatch_events method_kind req_ok service) in Ed2.
-      apply rpc_only_dispatched in Ed2.
-      unfold KT in *. rewrite sends_app. unfold dispatched. rewrite flat_map_app.
-      unfold sends at 2. cbn [flat_map app]. fold (sends evs1). fold (dispatched evs1). fold (dispatched tr).
-      rewrite Ed2.
-      eapply dispatch_K; [exact Ed| |apply K_mono; exact HK].
-      apply in_or_app. right. left. reflexivity.
-    + inversion H; subst. apply KT_frame; [exact HK|reflexivity].
-  - inversion H; subst. apply KT_frame; [exact HK|reflexivity].
+  intros HK Hin Ed. unfold KT in *.
+  pose proof Ed as Ed2. apply (dispatch_events method_kind req_ok service) in Ed2.
+  apply rpc_only_dispatched in Ed2.
+  rewrite sends_app. unfold dispatched. rewrite flat_map_app. fold (dispatched evs). fold (dispatched tr).
+  rewrite Ed2, app_nil_r.
+  eapply dispatch_K; [exact Ed|apply in_dispatched; exact Hin|exact HK].
 Qed.
 
-Lemma descriptor_ready_K ok f r avail f' r' rest evs tr :
-  KT r tr -> descriptor_ready ok f r avail = (f', r', rest, evs) -> KT r' (tr ++ evs).
+Lemma KT_call cl ok st nm rq r tr r' evs :
+  KT r tr -> call_method cl ok st nm rq r = (r', evs) -> KT r' (tr ++ evs).
 Proof.
-  intros HJ H. unfold Model.descriptor_ready in H.
-  destruct (dead r); [inversion H; subst; rewrite app_nil_r; exact HJ|].
-  destruct (expected f =? 0); [|eapply body_phase_K; eauto].
-  destruct (read_header f avail) as [[[f1 rs] ver] size].
-  destruct (size =? 0); [inversion H; subst; rewrite app_nil_r; exact HJ|].
-  destruct (negb _); [inversion H; subst; apply KT_frame; [exact HJ|reflexivity]|].
-  destruct (MAX_BUFFER_SIZE <? size); [inversion H; subst; apply KT_frame; [exact HJ|reflexivity]|].
-  destruct (allocate_msg_buffer _ size) as [f4 ret].
-  destruct (ret <? size); [inversion H; subst; apply KT_frame; [exact HJ|reflexivity]|].
-  eapply body_phase_K; eauto.
+  intros HK Ec. pose proof Ec as Ec2. apply call_method_events in Ec2. apply rpc_only_dispatched in Ec2.
+  unfold KT in *. rewrite sends_app. unfold dispatched. rewrite flat_map_app.
+  fold (dispatched evs). rewrite Ec2, app_nil_r.
+  eapply call_method_K; eauto.
 Qed.
 
-Lemma feed_K fuel : forall ok f r avail f' r' evs tr,
-  KT r tr -> feed fuel ok f r avail = (f', r', evs) -> KT r' (tr ++ evs).
+Lemma KT_complete cl ok r tr q res r' evs :
+  KT r tr -> request_complete cl ok r q res = (r', evs) -> KT r' (tr ++ evs).
 Proof.
-  induction fuel as [|fuel IH]; intros ok f r avail f' r' evs tr HJ H; cbn [Model.feed] in H.
-  - destruct avail; [inversion H; subst; rewrite app_nil_r; exact HJ|].
-    destruct (closed f || dead r); inversion H; subst; [rewrite app_nil_r; exact HJ|].
-    apply KT_frame; [exact HJ|reflexivity].
-  - destruct avail as [|a av]; [inversion H; subst; rewrite app_nil_r; exact HJ|].
-    destruct (closed f || dead r); [inversion H; subst; rewrite app_nil_r; exact HJ|].
-    destruct (descriptor_ready ok f r (a :: av)) as [[[f1 r1] rest] evs1] eqn:Edr.
-    destruct (feed fuel ok f1 r1 rest) as [[f2 r2] evs2] eqn:Ef.
-    inversion H; subst. rewrite app_assoc.
-    eapply IH; [|exact Ef]. eapply descriptor_ready_K; eauto.
-Qed.
-
-Lemma step_K f r o f' r' evs tr :
-  KT r tr -> step f r o = (f', r', evs) -> KT r' (tr ++ evs).
-Proof.
-  intros HK H. destruct o as [bs ok|st nm rq ok|q res ok]; cbn [Model.step] in H.
-  - eapply feed_K; eauto.
-  - destruct (call_method _ _ _ _ _ _) as [r1 evs1] eqn:Ec. inversion H; subst f' r' evs; clear H.
-    pose proof Ec as Ec2. apply call_method_events in Ec2. apply rpc_only_dispatched in Ec2.
-    unfold KT in *. rewrite sends_app. unfold dispatched. rewrite flat_map_app.
-    fold (dispatched evs1). rewrite Ec2, app_nil_r.
-    eapply call_method_K; eauto.
-  - destruct (request_complete _ _ _ _ _) as [r1 evs1] eqn:Ec. inversion H; subst f' r' evs; clear H.
-    pose proof Ec as Ec2. apply request_complete_events in Ec2. apply rpc_only_dispatched in Ec2.
-    unfold KT in *. rewrite sends_app. unfold dispatched. rewrite flat_map_app.
-    fold (dispatched evs1). rewrite Ec2, app_nil_r.
-    eapply request_complete_K; eauto.
+  intros HK Ec. pose proof Ec as Ec2. apply request_complete_events in Ec2. apply rpc_only_dispatched in Ec2.
+  unfold KT in *. rewrite sends_app. unfold dispatched. rewrite flat_map_app.
+  fold (dispatched evs). rewrite Ec2, app_nil_r.
+  eapply request_complete_K; eauto.
 Qed.
 
 Lemma run_K ops : forall f r f' r' evs tr,
   KT r tr -> run f r ops = (f', r', evs) -> KT r' (tr ++ evs).
 Proof.
-  induction ops as [|o ops IH]; intros f r f' r' evs tr HJ H; cbn [Model.run] in H.
-  - inversion H; subst. rewrite app_nil_r. exact HJ.
-  - destruct (step f r o) as [[f1 r1] evs1] eqn:Es.
-    destruct (run f1 r1 ops) as [[f2 r2] evs2] eqn:Er.
-    inversion H; subst. rewrite app_assoc.
-    eapply IH; [|exact Er]. eapply step_K; eauto.
+  exact (run_P decode method_kind req_ok service KT KT_frame KT_dispatch KT_call KT_complete ops).
 Qed.
 
 Lemma run_replies r0 ops f r tr :
